@@ -570,7 +570,14 @@ func parallelFor(n int, f func(i int)) {
 func cmdReplay(args []string) int {
 	fs := flag.NewFlagSet("replay", flag.ExitOnError)
 	driver := fs.String("driver", "", "path of the Lean driver")
+	knownPath := fs.String("known", "", "known findings json")
 	fs.Parse(args)
+	var known []knownFinding
+	if *knownPath != "" {
+		if b, err := os.ReadFile(*knownPath); err == nil {
+			json.Unmarshal(b, &known)
+		}
+	}
 	if fs.NArg() != 1 {
 		fmt.Fprintln(os.Stderr, "usage: corr replay -driver <path> <file>")
 		return 2
@@ -603,7 +610,18 @@ func cmdReplay(args []string) int {
 	bad := false
 	if o.OracleFail != "" {
 		fmt.Printf("oracle: FAIL %s\n", o.OracleFail)
-		bad = true
+		isKnown := false
+		for _, kf := range known {
+			if kf.Property == p.reportID() && kf.Status == "open" {
+				if pred := p.Known[kf.Signature]; pred != nil && pred(c, o) {
+					fmt.Printf("KNOWN-FINDING: property=%s %s (%s): %s\n", p.reportID(), kf.ID, kf.Signature, kf.What)
+					isKnown = true
+				}
+			}
+		}
+		if !isKnown {
+			bad = true
+		}
 	} else {
 		fmt.Printf("oracle: ok\n")
 	}
